@@ -438,6 +438,7 @@ func AliasOf(o types.Object) ast.Expr { return aliases[o] }
 func (m *Model) computeAliases() {
 	aliases = map[types.Object]ast.Expr{}
 	methodAliases = map[types.Object]*types.Func{}
+	outcomes := map[types.Object]ast.Expr{}
 	methodAliasExprs = map[types.Object]ast.Expr{}
 	for o, defs := range m.Defs {
 		v, ok := o.(*types.Var)
@@ -463,6 +464,14 @@ func (m *Model) computeAliases() {
 			isParam = false
 		}
 		e := ast.Unparen(defs[0].Expr)
+		// swapped := atomic.CompareAndSwapInt32(&x, a, b): the local is the outcome of a one-shot atomic decision, which
+		// cannot go stale; a condition that tests it is read as testing the call
+		if call, ok := e.(*ast.CallExpr); ok && !isParam {
+			if fn := Callee(info, call); fn != nil && fn.Pkg() != nil && fn.Pkg().Path() == "sync/atomic" && strings.HasPrefix(fn.Name(), "CompareAndSwap") {
+				outcomes[o] = defs[0].Expr
+			}
+			continue
+		}
 		addr := false
 		if u, ok := e.(*ast.UnaryExpr); ok && u.Op == token.AND {
 			e = ast.Unparen(u.X)
@@ -551,16 +560,24 @@ func (m *Model) computeAliases() {
 	}
 	lockset.Alias = AliasOf
 	aliasUses = map[*ast.Ident]ast.Expr{}
+	outcomeUses = map[*ast.Ident]ast.Expr{}
 	for _, p := range m.Pkgs {
 		for id, o := range p.TypesInfo.Uses {
 			if a := aliases[o]; a != nil {
 				aliasUses[id] = a
+			}
+			if a := outcomes[o]; a != nil {
+				outcomeUses[id] = a
 			}
 		}
 	}
 }
 
 var aliasUses map[*ast.Ident]ast.Expr
+var outcomeUses map[*ast.Ident]ast.Expr
+
+// OutcomeOfIdent returns the atomic compare-and-swap call whose result a use of a once-defined local holds (nil otherwise).
+func OutcomeOfIdent(id *ast.Ident) ast.Expr { return outcomeUses[id] }
 
 // AliasOfIdent returns what a use of a pure alias variable stands for (nil otherwise).
 func AliasOfIdent(id *ast.Ident) ast.Expr { return aliasUses[id] }
